@@ -72,6 +72,53 @@ func ExtractWalk(c *Ctx, name string) (*Sibling, error) {
 			helpers[fn] = true
 		}
 	}
+	// optional-child helpers: func h(v Visitor, child T) { if child != nil { Walk(v, child) } }
+	optHelpers := map[*types.Func]bool{}
+	for _, f := range load.AllFuncDecls(c.Pkg) {
+		if f.Recv != nil || f.Body == nil || len(f.Body.List) != 1 || f.Type.Params == nil {
+			continue
+		}
+		var params []types.Object
+		for _, p := range f.Type.Params.List {
+			for _, nm := range p.Names {
+				params = append(params, c.Info.Defs[nm])
+			}
+		}
+		is, ok := f.Body.List[0].(*ast.IfStmt)
+		if len(params) != 2 || !ok || is.Init != nil || is.Else != nil || len(is.Body.List) != 1 {
+			continue
+		}
+		be, ok := is.Cond.(*ast.BinaryExpr)
+		if !ok || be.Op != token.NEQ {
+			continue
+		}
+		if id, ok := be.X.(*ast.Ident); !ok || c.ObjOf(id) != params[1] {
+			continue
+		}
+		if tv, ok := c.Info.Types[be.Y]; !ok || !tv.IsNil() {
+			continue
+		}
+		es, ok := is.Body.List[0].(*ast.ExprStmt)
+		if !ok {
+			continue
+		}
+		call, ok := es.X.(*ast.CallExpr)
+		if !ok || len(call.Args) != 2 || !IsFunc(c.Callee(call), pkgPath, "Walk") {
+			continue
+		}
+		a0, ok0 := call.Args[0].(*ast.Ident)
+		a1, ok1 := call.Args[1].(*ast.Ident)
+		if !ok0 || !ok1 || c.ObjOf(a0) != params[0] || c.ObjOf(a1) != params[1] {
+			continue
+		}
+		// the nil test is only meaningful for an interface-typed parameter
+		if _, isIface := params[1].Type().Underlying().(*types.Interface); !isIface {
+			continue
+		}
+		if fn, ok := c.Info.Defs[f.Name].(*types.Func); ok {
+			optHelpers[fn] = true
+		}
+	}
 	// visitor variable: first parameter of Walk
 	var vObj types.Object
 	if fd.Type.Params != nil && len(fd.Type.Params.List) > 0 && len(fd.Type.Params.List[0].Names) > 0 {
@@ -86,7 +133,13 @@ func ExtractWalk(c *Ctx, name string) (*Sibling, error) {
 			}
 			continue
 		}
-		x := &walkX{c: c, n: cs.NObj, v: vObj, pkg: pkgPath, helpers: helpers}
+		vs := map[types.Object]bool{}
+		for _, d := range s.Chain {
+			if d.Type.Params != nil && len(d.Type.Params.List) > 0 && len(d.Type.Params.List[0].Names) > 0 {
+				vs[c.Info.Defs[d.Type.Params.List[0].Names[0]]] = true
+			}
+		}
+		x := &walkX{c: c, n: cs.NObj, v: vObj, pkg: pkgPath, helpers: helpers, optHelpers: optHelpers, vs: vs}
 		x.stmts(cs.Clause.Body, gctx{})
 		cs.Events = x.evs
 	}
@@ -98,7 +151,10 @@ type walkX struct {
 	n, v    types.Object
 	pkg     string
 	helpers map[*types.Func]bool
-	evs     []Event
+	// optHelpers: h(v, child) walks child iff it is non-nil (an interface-typed field only)
+	optHelpers map[*types.Func]bool
+	vs         map[types.Object]bool // visitor parameters of the functions the switch continues in
+	evs        []Event
 }
 
 func (x *walkX) emit(e Event, g gctx, pos token.Pos) {
@@ -115,7 +171,11 @@ func (x *walkX) stmts(list []ast.Stmt, g gctx) {
 
 func (x *walkX) isV(e ast.Expr) bool {
 	id, ok := e.(*ast.Ident)
-	return ok && x.v != nil && x.c.ObjOf(id) == x.v
+	if !ok {
+		return false
+	}
+	o := x.c.ObjOf(id)
+	return o != nil && (o == x.v || x.vs[o])
 }
 
 func (x *walkX) stmt(s ast.Stmt, g gctx) {
@@ -133,6 +193,13 @@ func (x *walkX) stmt(s ast.Stmt, g gctx) {
 					x.emit(Event{Kind: KList, Src: p, Field: p}, g, s.Pos())
 					return
 				}
+				if fn != nil && x.optHelpers[fn.Origin()] {
+					// only for fields of interface type (a nil pointer in an interface is not nil)
+					if _, isIface := c.Info.TypeOf(call.Args[1]).Underlying().(*types.Interface); isIface {
+						x.emit(Event{Kind: KChild, Src: p, Field: p}, g.with("n."+p+" != nil", false), s.Pos())
+						return
+					}
+				}
 			}
 		}
 		x.other(s, g)
@@ -149,7 +216,13 @@ func (x *walkX) stmt(s ast.Stmt, g gctx) {
 			x.stmt(el, g.with(cond, true))
 		}
 	case *ast.RangeStmt:
-		if listExpr, ok := listWalkLoop(c, s, x.pkg, x.v); ok {
+		listExpr, ok := listWalkLoop(c, s, x.pkg, x.v)
+		for o := range x.vs {
+			if !ok {
+				listExpr, ok = listWalkLoop(c, s, x.pkg, o)
+			}
+		}
+		if ok {
 			if p, okp := c.Path(listExpr, x.n); okp && p != "" {
 				x.emit(Event{Kind: KList, Src: p, Field: p}, g, s.Pos())
 				return
@@ -172,7 +245,13 @@ func (x *walkX) stmt(s ast.Stmt, g gctx) {
 		}
 		x.other(s, g)
 	case *ast.ForStmt:
-		if listExpr, ok := listWalkLoop(c, s, x.pkg, x.v); ok {
+		listExpr, ok := listWalkLoop(c, s, x.pkg, x.v)
+		for o := range x.vs {
+			if !ok {
+				listExpr, ok = listWalkLoop(c, s, x.pkg, o)
+			}
+		}
+		if ok {
 			if p, okp := c.Path(listExpr, x.n); okp && p != "" {
 				x.emit(Event{Kind: KList, Src: p, Field: p}, g, s.Pos())
 				return
